@@ -97,7 +97,7 @@ def main():
         "version": 1,
         "setup_cmd": "cd /verif && ./tools/setup.sh",
         "hooks": {
-            "guard": "cargo feature `verif-hooks` of the embedded-cli crate (not in default); four commits: accessors/Clone/re-exports, derived Hash over Editor and History fields, derived Clone for Cli, derived Hash over the decoder structs",
+            "guard": "cargo feature `verif-hooks` of the embedded-cli crate (not in default); six commits: accessors/Clone/re-exports, derived Hash over Editor and History fields, derived Clone for Cli, derived Hash over the decoder structs, accessor casts that survive narrowed field types, derived Hash over Cli itself",
             "enable": "harness crates depend on /repo/embedded-cli by path with features = [\"verif-hooks\", ...]",
             "baseline_off_cmd": "cd /repo && cargo test --workspace --no-fail-fast --offline",
             "source_commits": repo_commits(),
